@@ -82,7 +82,7 @@ PROPS = {
                 'f64 arithmetic is uninterpreted: the 2^-50 relative error bound of inexact fallbacks is not decided',
                 'machine integers are NOT treated as mathematical: Verus checks i64/i32/u32 overflow bit-exactly',
                 'results built inside closures passed to Option::map (float arms of quotient / %) are opaque to Verus',
-                'the procedures divide / quotient / remainder / expt (vm/builtin/number.rs) are verified to establish the preconditions of the Number operations they call (non-zero divisor, integer operands); pop_number / pop_integer are verified; Number::is_zero / to_u32 carry assumed contracts (is_zero is checked by Kani harnesses under C09); the modulo procedure is not under contract',
+                'the variadic procedures + and * are verified: an exact answer is exactly the sum / product of ALL arguments, each of which then was exact (args_sum / args_prod, step lemmas); abs / floor / ceiling / truncate hand their argument to the Number operation of the same name and return its answer; min / max / the comparison procedures are not under contract (provided trait methods `<`, `>` cannot be specified in this Verus; num_comp takes a closure)', 'the procedures divide / quotient / remainder / expt (vm/builtin/number.rs) are verified to establish the preconditions of the Number operations they call (non-zero divisor, integer operands); pop_number / pop_integer are verified; Number::is_zero / to_u32 carry assumed contracts (is_zero is checked by Kani harnesses under C09); the modulo procedure is not under contract',
             ]},
     'C03': {'groups': ['heap'], 'search': 'search_heap',
             'kani': [
@@ -152,7 +152,7 @@ PROPS = {
             ]},
     'C07': {'groups': ['run', 'stack'], 'search': 'search_fail',
             'assumptions': [
-                'decided: the error arm of run_count leaves the machine in the idle top-level control state (sp = 0, every stack slot wiped, bp = 0, ep = none) with heap and globals exactly as the failing instruction left them; Stack::clear wipes every slot (proved in unit stack)',
+                'decided: an evaluation that does not fail leaves no stack trace on record (a stale trace of an earlier failure is cleared); the error arm of run_count leaves the machine in the idle top-level control state (sp = 0, every stack slot wiped, bp = 0, ep = none) with heap and globals exactly as the failing instruction left them; Stack::clear wipes every slot (proved in unit stack)',
                 'not decided: that later evaluations then behave as in a VM that only performed the completed effects (needs the semantics of compile + run_one); read/compile errors happen before run_count and do not touch the machine (by reading prepare_eval)',
                 'run_one / StackTrace::new / Stack::get_sp_mut: assumed contracts',
             ]},
@@ -179,10 +179,11 @@ PROPS = {
             'kani': [
                 {'harness': 'num_is_zero_fixnum', 'file': 'src/number.rs', 'kind': 'complete', 'what': 'Number::is_zero() == (value == 0) for every fixnum'},
                 {'harness': 'num_is_zero_rational', 'file': 'src/number.rs', 'kind': 'complete', 'what': 'Number::is_zero() == (numerator == 0) for every Rational32 with positive denominator'},
+                {'harness': 'num_cmp_fixnum_float_consistent', 'file': 'src/number.rs', 'kind': 'complete', 'timeout': 900, 'what': 'fixnum vs float, every i64 and every non-NaN f64: partial_cmp answers Some, the two argument orders are mirror images, = is symmetric and agrees with the order (consistency only: the mathematical order of large fixnums against floats is not decided)'},
                 {'harness': 'num_is_zero_bigint_i64', 'file': 'src/number.rs', 'kind': 'bounded', 'bound': 'bignums whose value fits i64 (unwind 4, unwinding assertions on)', 'what': 'Number::is_zero() on a bignum == (value == 0)'},
             ],
             'assumptions': [
                 'assumed specifications of BigInt / Ratio comparison (axiom_big_eq, axiom_big_cmp, axiom_r32_eq, axiom_r32_cmp) as the mathematical order of their values',
-                'comparisons in which one operand is a Float are not decided (exec `as f64` casts are havoc to Verus): only panic-freedom of those arms is proved',
+                'comparisons in which one operand is a Float are not decided by Verus (exec `as f64` casts are havoc): only panic-freedom of those arms is proved; for fixnum against float the complete Kani harness num_cmp_fixnum_float_consistent decides consistency (mirror-image answers for the two argument orders, = symmetric and in agreement with the order), not the mathematical order; float against bignum / rational: not decided',
             ]},
 }
